@@ -270,6 +270,11 @@ func init() {
 		"verifNetWriteTime": func(e *Exec, t *Thread, a []Value, g bool) (Value, bool) {
 			return done(e.netWriteAt[e.intArg(a[0])])
 		},
+		"verifRealDial": func(e *Exec, t *Thread, a []Value, g bool) (Value, bool) {
+			// from now on knxnet.DialTunnelUDP/TCP are executed themselves (net.Resolve*/Dial* are stubs)
+			e.realDial = true
+			return done(nil)
+		},
 		"verifNetFailFrom": func(e *Exec, t *Thread, a []Value, g bool) (Value, bool) {
 			// every write attempt with index >= n fails (n < 0: never); attempts are counted from now on
 			e.netFailFrom = int(e.intArg(a[0]))
@@ -615,6 +620,42 @@ func init() {
 			e.netWriteAt = append(e.netWriteAt, e.nowT())
 			return done(Tuple{e.C.BVConst(64, uint64(buf.Len)), Iface{}})
 		},
+		// dialling: the peer is always 192.0.2.1:3671; the connection object is an empty stub whose
+		// Read/Write/Close are the stubs of this table
+		"net.ResolveUDPAddr": func(e *Exec, t *Thread, a []Value, g bool) (Value, bool) {
+			return done(Tuple{e.netPeerAddr("UDPAddr"), Iface{}})
+		},
+		"net.ResolveTCPAddr": func(e *Exec, t *Thread, a []Value, g bool) (Value, bool) {
+			return done(Tuple{e.netPeerAddr("TCPAddr"), Iface{}})
+		},
+		"net.DialUDP": func(e *Exec, t *Thread, a []Value, g bool) (Value, bool) {
+			tt := e.World.Pkgs["net"].Type("UDPConn").Type()
+			return done(Tuple{Ptr{Obj: e.newObj(tt, e.zero(tt))}, Iface{}})
+		},
+		"net.DialTCP": func(e *Exec, t *Thread, a []Value, g bool) (Value, bool) {
+			tt := e.World.Pkgs["net"].Type("TCPConn").Type()
+			return done(Tuple{Ptr{Obj: e.newObj(tt, e.zero(tt))}, Iface{}})
+		},
+		"(*net.conn).SetDeadline": func(e *Exec, t *Thread, a []Value, g bool) (Value, bool) { return done(Iface{}) },
+		"(net.IP).IsMulticast": func(e *Exec, t *Thread, a []Value, g bool) (Value, bool) {
+			return done(e.C.BoolConst(false)) // the stub peer address is a unicast one
+		},
+		"(*net.conn).Write": func(e *Exec, t *Thread, a []Value, g bool) (Value, bool) {
+			// connected socket: same log as WriteToUDP (bytes, virtual time stamp, injected failure)
+			buf := a[1].(Slice)
+			if e.netClosed > 0 || (e.netFailFrom >= 0 && e.netAttempts >= e.netFailFrom) {
+				e.netAttempts++
+				return done(Tuple{e.C.BVConst(64, 0), e.opaqueError("net: write failed (closed or injected)")})
+			}
+			e.netAttempts++
+			var w []*term.T
+			for i := 0; i < buf.Len; i++ {
+				w = append(w, e.sliceElem(buf, i).(*term.T))
+			}
+			e.netWrites = append(e.netWrites, w)
+			e.netWriteAt = append(e.netWriteAt, e.nowT())
+			return done(Tuple{e.C.BVConst(64, uint64(buf.Len)), Iface{}})
+		},
 		"(*net.UDPConn).Close": netClose,
 		"(*net.TCPConn).Close": netClose,
 		"(*net.conn).Close":    netClose,
@@ -839,6 +880,19 @@ func (e *Exec) mutexField(v Value, name string) (Ptr, int) {
 	}
 	e.unsupported("struct %v has no field %s (harness oracle needs the send lock)", pt.Elem(), name)
 	return Ptr{}, 0
+}
+
+// netPeerAddr builds *net.UDPAddr / *net.TCPAddr {192.0.2.1, 3671}.
+func (e *Exec) netPeerAddr(typ string) Ptr {
+	ua := e.World.Pkgs["net"].Type(typ).Type()
+	st := e.zero(ua).(*Struct)
+	ip := e.newArrayObj(types.Typ[types.Uint8], 16)
+	for i, b := range []uint64{0, 0, 0, 0, 0, 0, 0, 0, 0, 0, 0xff, 0xff, 192, 0, 2, 1} {
+		ip.V.(*Array).E[i] = e.C.BVConst(8, b)
+	}
+	st.F[0] = Slice{Arr: ip, Len: 16, Cap: 16}
+	st.F[1] = e.C.BVConst(64, 3671)
+	return Ptr{Obj: e.newObj(ua, st)}
 }
 
 func netClose(e *Exec, t *Thread, a []Value, g bool) (Value, bool) {
